@@ -73,7 +73,9 @@ def small_dyadic(q):
     if isinstance(q, str):
         return True  # infinities in domains are fine
     d = q.denominator
-    return d & (d - 1) == 0 and d <= 1024 and abs(q) < 2 ** 20
+    # dyadic with at most 30 fractional bits and magnitude below 2^20 (or an integer below 2^21): sums and products
+    # of a few such numbers are exact in f64, so the float folding of the compiler agrees with the exact statement
+    return d & (d - 1) == 0 and d <= 2 ** 30 and abs(q) <= 2 ** 21
 
 # ---------------------------------------------------------------- encoding
 class Enc:
